@@ -189,8 +189,55 @@ def sessionOp (j : Json) : R Json := do
     | none => obj [("exc", Json.str "KeyError")]
     | some (r, pi) => obj [("stack", ofStack r), ("pat_idx", ofList ofLbl pi)])).toArray)
 
+/-- the `randint` request of a call site for the whole grouping descriptor (generated leaves) -/
+def reqJson (site : Site) (desc : List Lbl) : Json :=
+  let rq := drawRequestNp site desc
+  Json.arr #[ofNat rq.1, ofNat rq.2.1, ofNat rq.2.2]
+
+/-- round 6, large stacks: one bootstrap draw whose drawn values are computed from the *whole*
+    grouping descriptors (`full_rdm`, `full_pat`) and the recorded draws, applied to a restriction of
+    the stack to whole groups (`Rsa.Boot.largeSample`, the as-coded entry points on the restriction;
+    theorems `subsample_rdm_local`, `subsamplePattern_rdm_local`).  `fn = direct`:
+    `subsample_pattern(by, value)`. -/
+def largeOp (j : Json) : R Json := do
+  let s ← asStack j
+  let fn ← fld j "fn" >>= asStr
+  let rdmBy ← asStr (fldD j "rdm_by" (Json.str "index"))
+  let patBy ← asStr (fldD j "pat_by" (Json.str "index"))
+  let fullR ← asList asLbl (fldD j "full_rdm" (Json.arr #[]))
+  let fullP ← asList asLbl (fldD j "full_pat" (Json.arr #[]))
+  let dr ← asList asNat (fldD j "draws_r" (Json.arr #[]))
+  let dp ← asList asNat (fldD j "draws_p" (Json.arr #[]))
+  match fn with
+  | "both" =>
+    match largeSample s (some (rdmBy, fullR, dr)) (some (patBy, fullP, dp)) with
+    | none => pure (obj [("exc", Json.str "KeyError")])
+    | some (r, ri, pi) =>
+      pure (obj [("stack", ofStack r), ("rdm_idx", ofList ofLbl ri), ("pat_idx", ofList ofLbl pi),
+                 ("spec_r", reqJson Site.bothR fullR), ("spec_p", reqJson Site.bothP fullP)])
+  | "rdm" =>
+    match largeSample s (some (rdmBy, fullR, dr)) none with
+    | none => pure (obj [("exc", Json.str "KeyError")])
+    | some (r, ri, _) =>
+      pure (obj [("stack", ofStack r), ("rdm_idx", ofList ofLbl ri), ("pat_idx", Json.null),
+                 ("spec_r", reqJson Site.rdm fullR), ("spec_p", Json.null)])
+  | "pattern" =>
+    match largeSample s none (some (patBy, fullP, dp)) with
+    | none => pure (obj [("exc", Json.str "KeyError")])
+    | some (r, _, pi) =>
+      pure (obj [("stack", ofStack r), ("rdm_idx", Json.null), ("pat_idx", ofList ofLbl pi),
+                 ("spec_r", Json.null), ("spec_p", reqJson Site.pat fullP)])
+  | "direct" => do
+    let value ← fld j "value" >>= asList asLbl
+    match s.subsamplePatternNp patBy value with
+    | none => pure (obj [("exc", Json.str "KeyError")])
+    | some r => pure (obj [("stack", ofStack r), ("rdm_idx", Json.null), ("pat_idx", Json.null),
+                           ("spec_r", Json.null), ("spec_p", Json.null)])
+  | _ => throw s!"unknown fn {fn}"
+
 def handle : Handler := fun op j =>
   match op with
+  | "c09.large" => some (largeOp j)
   | "c09.session" => some (sessionOp j)
   | "c09.boot" => some (boot j)
   | "c09.resample" => some (resample j)
